@@ -22,6 +22,11 @@ pub enum KeyAlt {
   Degenerate,
   /// another key of the RSA pool
   RsaPool(u8),
+  /// structured rearrangement of the key bytes: 0 swap two 8-byte groups, 1 reverse the 8-byte groups,
+  /// 2 rotate by one byte, 3 reverse all bytes, 4 swap the halves
+  Permute(u8, u8),
+  /// flip the same bit in two bytes `dist` apart (dist from {1,2,4,8,16})
+  FlipTwo(u16, u8),
 }
 
 #[derive(Clone, Debug, Serialize, Deserialize)]
@@ -103,6 +108,50 @@ fn alt_public(p: Proto, seed: &[u8; 32], alt: &KeyAlt) -> Option<Vec<u8>> {
       }
       _ => return None,
     },
+    KeyAlt::Permute(kind, which) => {
+      let mut k = pk.clone();
+      let (lo, len) = match p {
+        Proto::V3P => (1usize, 48usize),
+        Proto::V1P => (9, 256),
+        _ => (0, 32),
+      };
+      let body: Vec<u8> = k[lo..lo + len].to_vec();
+      let groups = len / 8;
+      let mut out = body.clone();
+      match kind % 5 {
+        0 => {
+          let a = (*which as usize) % groups;
+          let b = (a + 1 + (*which as usize / groups) % (groups - 1)) % groups;
+          for i in 0..8 {
+            out.swap(a * 8 + i, b * 8 + i);
+          }
+        }
+        1 => {
+          for g in 0..groups {
+            out[g * 8..g * 8 + 8].copy_from_slice(&body[(groups - 1 - g) * 8..(groups - g) * 8]);
+          }
+        }
+        2 => out.rotate_left(1 + (*which as usize) % (len - 1)),
+        3 => out.reverse(),
+        _ => out.rotate_left(len / 2),
+      }
+      k[lo..lo + len].copy_from_slice(&out);
+      k
+    }
+    KeyAlt::FlipTwo(bit, d) => {
+      let mut k = pk.clone();
+      let (lo, len) = match p {
+        Proto::V3P => (1usize, 48usize),
+        Proto::V1P => (9, 256),
+        _ => (0, 32),
+      };
+      let dist = [1usize, 2, 4, 8, 16][(*d as usize) % 5];
+      let i = (*bit as usize / 8) % (len - dist);
+      let m = 1u8 << (bit % 8);
+      k[lo + i] ^= m;
+      k[lo + i + dist] ^= m;
+      k
+    }
     KeyAlt::RsaPool(i) => {
       if p != Proto::V1P {
         return None;
@@ -147,6 +196,8 @@ impl Sub for KeyBinding {
       KeyAlt::Negate => "negated-point",
       KeyAlt::Degenerate => "degenerate",
       KeyAlt::RsaPool(_) => "rsa-pool",
+      KeyAlt::Permute(..) => "permuted-bytes",
+      KeyAlt::FlipTwo(..) => "two-bit-flips",
     }));
     let (f, a) = (s.footer.as_deref(), s.assertion());
     let describe = |o: &crate::rt::LayerOut| o.message();
@@ -213,6 +264,8 @@ fn alt_strategy(p: Proto) -> BoxedStrategy<KeyAlt> {
     if p.is_local() { 0 } else { 1 } => Just(KeyAlt::Negate),
     if p.is_local() { 0 } else { 1 } => Just(KeyAlt::Degenerate),
     if p == Proto::V1P { 4 } else { 0 } => any::<u8>().prop_map(KeyAlt::RsaPool),
+    3 => (0u8..5, any::<u8>()).prop_map(|(k, w)| KeyAlt::Permute(k, w)),
+    3 => (any::<u16>(), 0u8..5).prop_map(|(b, d)| KeyAlt::FlipTwo(b, d)),
   ]
   .boxed()
 }
@@ -260,6 +313,16 @@ pub fn run(ctx: &Ctx) -> EvidenceMeta {
           }
           for alt in [KeyAlt::AllZero, KeyAlt::AllOne, KeyAlt::Negate, KeyAlt::Degenerate] {
             cases.push(KeyCase { tok: spec.clone(), alt });
+          }
+          for kind in 0..5u8 {
+            for which in 0..12u8 {
+              cases.push(KeyCase { tok: spec.clone(), alt: KeyAlt::Permute(kind, which) });
+            }
+          }
+          for d in 0..5u8 {
+            for bit in (0..256u16).step_by(if ctx.quick() { 5 } else { 1 }) {
+              cases.push(KeyCase { tok: spec.clone(), alt: KeyAlt::FlipTwo(bit, d) });
+            }
           }
           for i in 0..keys::RSA_POOL.len() as u8 {
             cases.push(KeyCase { tok: spec.clone(), alt: KeyAlt::RsaPool(i) });
